@@ -1,8 +1,8 @@
-From LC Require Export Val LatestHashes Filters.
+From LC Require Export Val LatestHashes Filters FiltersChecked.
 Open Scope N_scope.
 
 Definition run_filters (w : fworld) (m : bf_msg) : val :=
-  match execute w m with
+  match execute_chk w m with
   | Ok o =>
       let scripts' := match fo_bump o with
                       | Some n => map (fun s => (fst s, if snd s <? n then n else snd s)) (fw_scripts w)
